@@ -210,6 +210,7 @@ type fakeAPI struct {
 	plans    []sessPlan // consumed by successive successful Watch calls
 
 	mkList func(rv string, items []kobj) runtime.Object
+	newObj func(ns, name string, labels map[string]string) kobj // object factory of put (default: pods)
 
 	// list behaviour
 	gated            bool
@@ -539,6 +540,9 @@ func (a *fakeAPI) put(ns, name string, labels map[string]string) int {
 	typ := watch.Added
 	if ex {
 		typ = watch.Modified
+	}
+	if a.newObj != nil {
+		return a.apply(typ, a.newObj(ns, name, labels))
 	}
 	return a.apply(typ, mkPod(ns, name, "", labels))
 }
